@@ -45,11 +45,13 @@ Definition block1_request (cfg : ccfg) (block_cursor size_exp : Z) : M request :
   else
     Ok {| rq_block1 := None; rq_block2 := c_block2 cfg; rq_size1 := None; rq_payload := c_body cfg |}.
 
-(* protocol.py:963-965: while block1.size_exponent < size_exp: block_cursor *= 2; size_exp -= 1 *)
+(* protocol.py:963-968: while block1.size_exponent < size_exp: (if size_exp != 7: block_cursor *= 2); size_exp -= 1
+   — BERT (7) counts in the same 1024-byte blocks as exponent 6 (fix 166eafe) *)
 Fixpoint reduce_size (fuel : nat) (target block_cursor size_exp : Z) : Z * Z :=
   match fuel with
   | O => (block_cursor, size_exp)
-  | S f => if target <? size_exp then reduce_size f target (block_cursor * 2) (size_exp - 1) else (block_cursor, size_exp)
+  | S f => if target <? size_exp then reduce_size f target (if size_exp =? 7 then block_cursor else block_cursor * 2) (size_exp - 1)
+           else (block_cursor, size_exp)
   end.
 
 Inductive b1_decision := B1Err (e : exn) | B1Continue (block_cursor size_exp : Z) | B1Break.
